@@ -47,16 +47,22 @@ pub struct World {
     /// two points per sampler, sharing the lambda coordinate
     pub points: Vec<Vec<Vec<f64>>>,
     pub script: Vec<Vec<u64>>,
+    /// scripts with exact zeros on the Box-Muller radius positions
+    pub script2: Vec<Vec<u64>>,
+    /// alternative edge data (loop-momentum offsets: same signature, different shifts) per history sampler
+    pub alt_ed: Vec<EdgeData<f64>>,
 }
 
 pub fn world() -> World {
     // A: triangle-like, D = 3; B: 2-loop kite with a mass, D = 4 (different dod)
-    let ga = mk(&[(0, 1), (1, 2), (2, 0)], &[false, false, false], &[2.0 / 3.0; 3], &[0, 1, 2], 3);
+    // weights for which the f64 cumulative edge probabilities end below one (the rounding fall-through of edge selection is used)
+    let ga = mk(&[(0, 1), (1, 2), (2, 0)], &[false, false, false], &[0.8, 1.0, 0.8], &[0, 1, 2], 3);
     let gb = mk(&kite(), &[false, true, false, false, false], &[1.5; 5], &[0, 3], 4);
     let ca = Case::new(&CaseSpec { g: ga, mom_variant: 0, mass_variant: 0, label: "A".into() }).expect("A admissible");
     let cb = Case::new(&CaseSpec { g: gb, mom_variant: 1, mass_variant: 0, label: "B".into() }).expect("B admissible");
     let mut points = vec![];
     let mut script = vec![];
+    let mut script2: Vec<Vec<u64>> = vec![];
     for (c, orders) in [(&ca, [vec![0, 1, 2], vec![2, 0, 1]]), (&cb, [vec![0, 1, 2, 3, 4], vec![3, 1, 4, 0, 2]])] {
         let mut ps = vec![];
         for (k, o) in orders.iter().enumerate() {
@@ -70,9 +76,26 @@ pub fn world() -> World {
             x[2 * ne - 2] = 0.375; // shared lambda coordinate
             ps.push(x);
         }
+        // third point: the first selection answer is the largest f64 below one
+        {
+            let mut x = ps[0].clone();
+            x[0] = 1.0 - f64::EPSILON / 2.0;
+            ps.push(x);
+        }
         // scripted rng: a fixed sequence of dyadic numbers
         let n = ps[0].len();
         script.push((0..n as u64).map(|i| ((i.wrapping_mul(0x9E37_79B9_7F4A_7C15u64.wrapping_mul(i + 1))) | 1 << 62) & !(0x7ff) & !(1u64 << 63)).collect::<Vec<u64>>());
+        // second script: the same numbers, but exact zeros on the Box-Muller radius positions of the tail
+        {
+            let ne = c.g.ne();
+            let mut z = script.last().unwrap().clone();
+            let mut i = 2 * ne - 1;
+            while i < n {
+                z[i] = 0;
+                i += 2;
+            }
+            script2.push(z);
+        }
         points.push(ps);
     }
     // C: two triangles sharing an edge with unequal, non-dyadic weights (any accumulation in hash order shows in the last bits)
@@ -90,7 +113,17 @@ pub fn world() -> World {
     let cb2 = Case::new(&CaseSpec { g: gb2, mom_variant: 1, mass_variant: 0, label: "B'".into() }).expect("B' admissible");
     let alt_kins = vec![ca2.base_kin(), cb2.base_kin()];
     let kins = vec![ca.base_kin(), cb.base_kin(), cc.base_kin()];
-    World { cases: vec![ca, cb, cc], alt_cases: vec![ca2, cb2], alt_kins, kins, points, script }
+    let alt_ed: Vec<EdgeData<f64>> = (0..2)
+        .map(|i| {
+            let k = &kins[i];
+            let nl = k.nl();
+            let dim = [3usize, 4][i];
+            let a: Vec<Vec<oracle::Q>> = (0..nl).map(|l| (0..dim).map(|c| oracle::qr(1 + l as i64 + 2 * c as i64, 2)).collect()).collect();
+            let ko = k.offset(&a);
+            (0..ko.sig.len()).map(|e| (ko.masses[e].as_ref().map(q_exact_f64), ko.shifts[e].iter().map(q_exact_f64).collect())).collect()
+        })
+        .collect();
+    World { cases: vec![ca, cb, cc], alt_cases: vec![ca2, cb2], alt_kins, kins, points, script, script2, alt_ed }
 }
 
 pub const SETTINGS8: [Settings; 8] = [
@@ -107,7 +140,11 @@ pub const SETTINGS8: [Settings; 8] = [
 #[derive(Clone, Copy, Debug, PartialEq)]
 pub enum Op {
     Sample { s: usize, x: usize, st: usize },
+    /// the same sampler, the same point, DIFFERENT edge data (loop-momentum offset)
+    SampleAlt { s: usize },
     FromRng { s: usize },
+    /// scripted generator that returns exact zeros on the Box-Muller radius positions
+    FromRngZeros { s: usize },
     CloneS { s: usize },
     GetDim { s: usize },
     Json { s: usize },
@@ -120,12 +157,14 @@ pub enum Op {
 pub fn op_alphabet() -> Vec<Op> {
     let mut v = vec![];
     for s in 0..2 {
-        for x in 0..2 {
+        for x in 0..3 {
             for st in 0..8 {
                 v.push(Op::Sample { s, x, st });
             }
         }
+        v.push(Op::SampleAlt { s });
         v.push(Op::FromRng { s });
+        v.push(Op::FromRngZeros { s });
         v.push(Op::CloneS { s });
         v.push(Op::GetDim { s });
         v.push(Op::Json { s });
@@ -150,8 +189,13 @@ pub fn apply(w: &World, rs: &mut Vec<Routed>, op: Op) -> Vec<u64> {
             Ok(b) => b,
             Err(e) => vec![u64::MAX, fnv(&e)],
         },
-        Op::FromRng { s } => {
-            let mut rng = Scripted { vals: w.script[s].clone(), pos: 0 };
+        Op::SampleAlt { s } => match outcome_bits(&rs[s].sampler.sample_with(&w.points[s][1], &w.alt_ed[s], &Settings::META, &NullLogger)) {
+            Ok(b) => b,
+            Err(e) => vec![u64::MAX, fnv(&e)],
+        },
+        Op::FromRng { s } | Op::FromRngZeros { s } => {
+            let vals = if matches!(op, Op::FromRngZeros { .. }) { w.script2[s].clone() } else { w.script[s].clone() };
+            let mut rng = Scripted { vals, pos: 0 };
             let o = rs[s].sampler.sample_rng(&rs[s].ed, &Settings::META, &mut rng, &NullLogger);
             let mut b = match outcome_bits(&o) {
                 Ok(b) => b,
@@ -249,24 +293,26 @@ pub fn run_histories(ctx: &Ctx, acc: &mut Acc) {
     // static clauses on the reference itself
     for s in 0..2 {
         // from_rng == from_x_space_point on the converted numbers, exactly get_dimension() draws
-        let idx = alpha.iter().position(|o| *o == Op::FromRng { s }).unwrap();
-        let r = &refs[idx];
-        let draws = *r.last().unwrap();
-        let dim = fresh(&w)[s].sampler.get_dimension().unwrap_or(0) as u64;
-        if draws != dim {
-            acc.violate(format!("C17/from_rng-draws/{s}"), "generate_sample_from_rng draws exactly get_dimension() numbers", format!("sampler {s}: {draws} draws, get_dimension() = {dim}"), hist_case(&[idx]));
-        }
-        let x: Vec<f64> = w.script[s].iter().take(dim as usize).map(|&v| u64_to_unit(v)).collect();
-        let rs = fresh(&w);
-        let direct = match outcome_bits(&rs[s].sampler.sample(&x, &rs[s].ed, &Settings::META)) {
-            Ok(b) => b,
-            Err(e) => vec![u64::MAX, fnv(&e)],
-        };
-        if direct[..] != r[..r.len() - 1] {
-            acc.violate(format!("C17/from_rng-equals-x-space/{s}"), "from_rng returns what from_x_space_point returns for those numbers", format!("sampler {s}: results differ"), hist_case(&[idx]));
+        for (op, scr) in [(Op::FromRng { s }, &w.script[s]), (Op::FromRngZeros { s }, &w.script2[s])] {
+            let idx = alpha.iter().position(|o| *o == op).unwrap();
+            let r = &refs[idx];
+            let draws = *r.last().unwrap();
+            let dim = fresh(&w)[s].sampler.get_dimension().unwrap_or(0) as u64;
+            if draws != dim {
+                acc.violate(format!("C17/from_rng-draws/{s}/{idx}"), "generate_sample_from_rng draws exactly get_dimension() numbers", format!("sampler {s}: {draws} draws, get_dimension() = {dim}"), hist_case(&[idx]));
+            }
+            let x: Vec<f64> = scr.iter().take(dim as usize).map(|&v| u64_to_unit(v)).collect();
+            let rs = fresh(&w);
+            let direct = match outcome_bits(&rs[s].sampler.sample(&x, &rs[s].ed, &Settings::META)) {
+                Ok(b) => b,
+                Err(e) => vec![u64::MAX, fnv(&e)],
+            };
+            if direct[..] != r[..r.len() - 1] {
+                acc.violate(format!("C17/from_rng-equals-x-space/{s}/{idx}"), "from_rng returns what from_x_space_point returns for those numbers", format!("sampler {s}, script {:?}: results differ", op), hist_case(&[idx]));
+            }
         }
         // metadata / debug / stability(inf) do not change the numerical result
-        for xi in 0..2 {
+        for xi in 0..3 {
             let rs = fresh(&w);
             let base = match &rs[s].sampler.sample(&w.points[s][xi], &rs[s].ed, &SETTINGS8[0]) {
                 Outcome::Ok(sm) => core_bits(sm),
@@ -501,14 +547,14 @@ pub fn run_c17(ctx: &Ctx) -> i32 {
     extra.insert("source_scan_global_state_candidates(assumption only)".into(), json!(scan));
     let fin = Finish {
         level: "model_checking",
-        rule: format!("(histories) all sequences up to depth {} over a 44-operation alphabet on two samplers (sample x 8 settings x 2 points, from_rng with a scripted RngCore, clone, get_dimension, JSON and CBOR round trips, in-place rebuild of a different sampler with the same edge count), each re-executed on freshly built samplers and compared bit-for-bit with the same call made first on a fresh sampler, serialisations compared after every step; (schedules) all interleavings of 2-3 real OS threads sharing a sampler with at most p preemptions, scheduling points = every scalar operation, under an own baton scheduler with DFS over schedules, a planted impurity must be caught first; (configurations) all E! hash iteration orders; child processes. states = histories + schedules, transitions = operations + scheduling decisions", ctx.tier.pick(3, 4)),
+        rule: format!("(histories) all sequences up to depth {} over a 64-operation alphabet on two samplers (sample x 8 settings x 3 points incl. u = 1-2^-53, sample with different edge data, from_rng with two scripted RngCores incl. exact zeros, clone, get_dimension, JSON and CBOR round trips, in-place rebuild of a different sampler with the same edge count), each re-executed on freshly built samplers and compared bit-for-bit with the same call made first on a fresh sampler, serialisations compared after every step; (schedules) all interleavings of 2-3 real OS threads sharing a sampler with at most p preemptions, scheduling points = every scalar operation, under an own baton scheduler with DFS over schedules, a planted impurity must be caught first; (configurations) all E! hash iteration orders; child processes. states = histories + schedules, transitions = operations + scheduling decisions", ctx.tier.pick(3, 4)),
         states: acc.get("histories") + acc.get("schedules"),
         transitions: acc.get("operations") + acc.get("schedules"),
         traces: acc.get("histories") + acc.get("schedules"),
         evaluations: acc.get("histories") + acc.get("schedules"),
         distinct_nontrivial: acc.get("histories") + acc.get("schedules"),
         exhaustive: acc.get("schedule_cap_hit") == 0,
-        bounds: json!({"history_depth": ctx.tier.pick(3, 4), "operation_alphabet": 44, "preemption_bounds": acc.hist.get("preemption_bound_completed"), "threads": "2 (thorough: also 3)"}),
+        bounds: json!({"history_depth": ctx.tier.pick(3, 4), "operation_alphabet": 64, "preemption_bounds": acc.hist.get("preemption_bound_completed"), "threads": "2 (thorough: also 3)"}),
         assumptions: vec![
             "preemption happens only at scalar-operation boundaries of the generic code; non-generic f64 code (Gamma quantile, component search) has no scheduling points and no shared state today (source scan reported in coverage, as an assumption)".into(),
         ],
